@@ -118,15 +118,22 @@ class PandasData(BaseIOSpec):
         self._init_spec()
 
     def _can_update_other(self, other, sheet):
-        if other is self or sheet != self._sheet:
+        if other is self:
             return True
-        else:
+        elif sheet is None or self._sheet is None:
+            # As in _can_add_other:
+            # a spec without a sheet does not share its file
             return False
+        else:
+            return sheet != self._sheet
 
     def _on_update(self, sheet):
         self._sheet = sheet
-        if "sheet_name" in self._read_args:
-            self._read_args["sheet_name"] = sheet
+        if sheet:
+            if self._io.file_type == "excel":
+                self._read_args["sheet_name"] = sheet
+        else:
+            self._read_args.pop("sheet_name", None)
 
     def _init_spec(self):
         """Initialize name and _read_args"""
